@@ -29,10 +29,19 @@ fn run_case_n(steps_ok: StepFault, insps: Vec<Inspection>) -> (Result<bool, Stri
     if !matches!(steps_ok, StepFault::MissingLink) {
         write_link(links.path(), "a", signer.key_id(), &signed_link(&la, &[&signer]));
     }
-    let step_rules = if let StepFault::RuleFails = steps_ok {
-        vec![ArtifactRule::Disallow(VirtualTargetPath::new("*".into()).unwrap())]
-    } else { allow_all() };
     let name = insps[0].name.clone();
+    let vp = |s: &str| VirtualTargetPath::new(s.into()).unwrap();
+    let step_rules = match steps_ok {
+        StepFault::RuleFails => vec![ArtifactRule::Disallow(vp("*"))],
+        // rules that mention the inspection (or another item) and then fail: still a failed step stage
+        StepFault::RuleFailsAfterMatchFromInspection => vec![
+            ArtifactRule::Match { pattern: vp("x"), in_src: None, with: in_toto::models::rule::Artifact::Products, in_dst: None, from: name.clone() },
+            ArtifactRule::Disallow(vp("*"))],
+        StepFault::RuleFailsAfterMatchFromItself => vec![
+            ArtifactRule::Match { pattern: vp("nothing"), in_src: None, with: in_toto::models::rule::Artifact::Materials, in_dst: None, from: "a".into() },
+            ArtifactRule::Disallow(vp("*"))],
+        StepFault::RequireMissing => vec![ArtifactRule::Require(vp("absent")), ArtifactRule::Allow(vp("*"))],
+        _ => allow_all() };
     let expiry = if let StepFault::Expired = steps_ok { -1 } else { 30 };
     let l = layout(vec![step("a", 1, &[&ka], allow_all(), step_rules)], insps, &[&ka], expiry);
     let owners: Vec<&in_toto::crypto::PrivateKey> = if let StepFault::BadOwnerSig = steps_ok { vec![&ka] } else { vec![&owner] };
@@ -47,11 +56,11 @@ fn run_case_n(steps_ok: StepFault, insps: Vec<Inspection>) -> (Result<bool, Stri
 }
 
 #[derive(Clone, Copy, Debug)]
-enum StepFault { None, MissingLink, WrongSigner, RuleFails, Expired, BadOwnerSig }
+enum StepFault { None, MissingLink, WrongSigner, RuleFails, RuleFailsAfterMatchFromInspection, RuleFailsAfterMatchFromItself, RequireMissing, Expired, BadOwnerSig }
 
 pub fn run(r: &mut Report) {
     // 1. whenever an earlier stage fails, the inspection command must not have run
-    for f in [StepFault::MissingLink, StepFault::WrongSigner, StepFault::RuleFails, StepFault::Expired, StepFault::BadOwnerSig] {
+    for f in [StepFault::MissingLink, StepFault::WrongSigner, StepFault::RuleFails, StepFault::RuleFailsAfterMatchFromInspection, StepFault::RuleFailsAfterMatchFromItself, StepFault::RequireMissing, StepFault::Expired, StepFault::BadOwnerSig] {
         let (res, marker, linkfile) = run_case(f, inspection("insp", &["touch", "marker"], allow_all(), allow_all()));
         let ok = matches!(res, Ok(false)) && !marker && !linkfile;
         r.case("no-inspection-after-failed-stage", json!({"fault": format!("{:?}", f)}), "Err, command not run, no link file",
